@@ -71,6 +71,10 @@ def run(check, prog):
     phi_quadrature(check, prog)
     polarization_pins(check, prog)
     f2py_coordinate_roles(check, prog)
+    # the polarisation angle reaches the integrands and the recombination with
+    # one and the same sign (rule shared with C08)
+    from . import c08
+    c08.lens_wiring(check, prog)
 
 
 # ----------------------------------------------------------------------
